@@ -4,6 +4,7 @@
 (* cfg : the command line                                                    *)
 (*   progVia   "inline" | "file"      program as first argument / with -f    *)
 (*   nfiles    0 (stdin) | 1 | 2      named input files                      *)
+(*   same      both file arguments are the same path (nfiles = 2)            *)
 (*   nsel      0..2                   number of -r selectors                 *)
 (*   out       "none" | "dash" | "path"   no -o / -o - / -o FILE              *)
 (*   badProg   the -f file does not exist                                    *)
@@ -32,12 +33,18 @@ NoLib == [outcome |-> "na", json |-> "na"]
 NoText == [chan |-> "none", bytes |-> <<>>]
 TextOf(c) == IF "text" \in DOMAIN c THEN c.text ELSE NoText
 \* texts that travel from the command line to the library / from the library to stdout and the -o file
-InChans == {"prog-str", "prog-re", "prog-ws", "prog-cmt", "sel", "fname", "input-str", "input-ws"}
-OutChans == {"doc-val", "doc-key"}
+\* EdgeChans: the text is the very beginning / the very end of the program text or of an input's bytes (where a
+\* loader would skip a signature, trim, or add a final newline); RawOutChans: the text is, byte for byte, what the
+\* program writes last (no newline added): at the end of a successful run, before `exit`, before a runtime error.
+EdgeChans == {"prog-head", "prog-tail", "input-head", "input-tail"}
+InChans == {"prog-str", "prog-re", "prog-ws", "prog-cmt", "sel", "fname", "input-str", "input-ws"} \cup EdgeChans
+RawOutChans == {"out-end", "out-exit", "out-err"}
+OutChans == {"doc-val", "doc-key"} \cup RawOutChans
 LibResults == {[outcome |-> "ok", json |-> "ok"], [outcome |-> "ok", json |-> "err"], [outcome |-> "err", json |-> "na"]}
 
 \* the inputs the evaluator is to read, in command-line order; stdin when no file is named
-Inputs(c) == IF c.nfiles = 0 THEN <<"stdin">> ELSE [i \in 1..c.nfiles |-> i]
+\* an input is identified by the path it names: a path given twice is two inputs, each opened and read on its own
+Inputs(c) == IF c.nfiles = 0 THEN <<"stdin">> ELSE [i \in 1..c.nfiles |-> IF c.same THEN 1 ELSE i]
 Selectors(c) == [i \in 1..c.nsel |-> i]
 
 Start(c) ==
@@ -124,6 +131,14 @@ Result(c, r) ==
 Observed ==
   [status0 |-> status = 0, diag |-> stderr # <<>>, stdout |-> stdout, outfile |-> outfile, calls |-> calls]
 
+\* ---- stdout as a byte stream.  A token stands for the bytes it names: "lib" for what the program wrote --
+\* the text itself when it travels on a raw output channel, else the opaque "<lib>" --, "json" for the document.
+\* The stream is ONE sequence of bytes in the order of the writes: nothing the program wrote may still be
+\* under way when the wrapper writes, whether or not the program's last line is complete.
+LibBytes(c) == IF TextOf(c).chan \in RawOutChans THEN TextOf(c).bytes ELSE <<"<lib>">>
+StreamOf(c, toks) == FlattenSeq([i \in 1..Len(toks) |-> IF toks[i] = "lib" THEN LibBytes(c) ELSE <<"<json>">>])
+IsPrefix(a, b) == Len(a) <= Len(b) /\ SubSeq(b, 1, Len(a)) = a
+
 \* ---- properties of the transition system (checked in every reachable state)
 CliTypeOK ==
   /\ pc \in {"parse", "load", "open", "json", "exit"}
@@ -141,6 +156,13 @@ StdoutShape ==
   /\ stdout \in {<<>>, <<"lib">>, <<"lib", "json">>}
   /\ (stdout = <<"lib", "json">>) <=> (pc = "exit" /\ status = 0 /\ cfg.out = "dash")
   /\ (outfile = "json") <=> (pc = "exit" /\ status = 0 /\ cfg.out = "path")
+\* the bytes on stdout: once the library was called, everything it wrote comes first, whatever its last byte is;
+\* the document follows it and nothing follows the document
+ByteOrder ==
+  LET st == StreamOf(cfg, stdout) IN
+  /\ Len(calls) = 1 => IsPrefix(LibBytes(cfg), st)
+  /\ Len(calls) = 0 => st = <<>>
+  /\ \A i \in 1..Len(st) : st[i] = "<json>" => i = Len(st) /\ i = Len(LibBytes(cfg)) + 1
 \* the library is called at most once, after every input was opened, with inputs and selectors in command-line order
 CallOrder ==
   \A k \in 1..Len(calls) : calls[k].inputs = Inputs(cfg) /\ calls[k].sels = Selectors(cfg) /\ opened = Inputs(cfg)
@@ -163,6 +185,14 @@ LawStdin(C) ==
       LET a == Result(c, r) b == Result([c EXCEPT !.nfiles = 0, !.badAt = 0], r) IN
       /\ a.status0 = b.status0 /\ a.diag = b.diag /\ a.stdout = b.stdout /\ a.outfile = b.outfile
       /\ Len(a.calls) = Len(b.calls)
+\* a path named twice is two inputs like any two: the wrapper decides nothing by it, the library gets both
+LawSamePath(C) ==
+  \A c \in C : \A r \in LibResults :
+    (c.nfiles = 2 /\ ~c.same /\ c.badAt <= 1) =>
+      LET a == Result(c, r) b == Result([c EXCEPT !.same = TRUE], r) IN
+      /\ a.status0 = b.status0 /\ a.diag = b.diag /\ a.stdout = b.stdout /\ a.outfile = b.outfile
+      /\ Len(a.calls) = Len(b.calls)
+      /\ \A k \in 1..Len(b.calls) : Len(b.calls[k].inputs) = 2 /\ b.calls[k].inputs[1] = b.calls[k].inputs[2]
 \* -o FILE receives exactly what -o - appends after the program's own output, with the same status
 LawOutPath(C) ==
   \A c \in C : \A r \in LibResults :
@@ -172,6 +202,13 @@ LawOutPath(C) ==
     /\ p.stdout = n.stdout
     /\ (p.outfile = "json") <=> (d.stdout = n.stdout \o <<"json">>)
     /\ (p.outfile = "absent") <=> (d.stdout = n.stdout)
+\* the same on the byte stream: -o - prints every byte of the run without -o, then the document, then nothing
+LawOutBytes(C) ==
+  \A c \in C : \A r \in LibResults :
+    LET d == Result([c EXCEPT !.out = "dash"], r) p == Result([c EXCEPT !.out = "path"], r)
+        n == Result([c EXCEPT !.out = "none"], r) IN
+    /\ StreamOf(c, p.stdout) = StreamOf(c, n.stdout)
+    /\ StreamOf(c, d.stdout) = StreamOf(c, n.stdout) \o (IF p.outfile = "json" THEN <<"<json>">> ELSE <<>>)
 \* every error, an unusable file, and -o with several inputs: non-zero and a diagnostic
 LawErrors(C) ==
   \A c \in C : \A r \in LibResults :
